@@ -182,6 +182,14 @@ pub struct Policy {
     pub flush_fail: Option<u32>,
     /// source only: behaves like a pipe — every seek / stream_position fails with ESPIPE
     pub not_seekable: bool,
+    /// sink only: write-back cache — bytes become durable (visible in the store) only when a flush succeeds;
+    /// whatever is still pending when the sink is dropped is lost
+    pub writeback: bool,
+    /// sink only: the first n flush calls return EINTR (nothing is made durable by them)
+    pub flush_eintr: u32,
+    /// source only: the file shrank while being read — reads hit end-of-file at this offset although
+    /// seek(End) still reports the original length
+    pub eof_at: Option<u64>,
 }
 impl Policy {
     pub fn plain() -> Self {
@@ -276,13 +284,14 @@ pub type Store = Rc<RefCell<Vec<u8>>>;
 pub struct SimSink {
     core: Core,
     pub store: Store,
+    pending: Vec<u8>,
 }
 impl SimSink {
     pub fn new(io: &Io, pol: Policy) -> Self {
-        SimSink { core: Core::new(io, pol), store: Rc::new(RefCell::new(Vec::new())) }
+        SimSink { core: Core::new(io, pol), store: Rc::new(RefCell::new(Vec::new())), pending: Vec::new() }
     }
     pub fn with_store(io: &Io, pol: Policy, store: Store) -> Self {
-        SimSink { core: Core::new(io, pol), store }
+        SimSink { core: Core::new(io, pol), store, pending: Vec::new() }
     }
 }
 impl Write for SimSink {
@@ -292,9 +301,13 @@ impl Write for SimSink {
             self.core.io.borrow_mut().ev(self.core.id, "write", 0, 0, "");
             return Ok(0);
         }
-        let pos = self.store.borrow().len() as u64;
+        let pos = (self.store.borrow().len() + self.pending.len()) as u64;
         let g = self.core.decide(buf.len(), pos, true)?;
-        self.store.borrow_mut().extend_from_slice(&buf[..g]);
+        if self.core.pol.writeback {
+            self.pending.extend_from_slice(&buf[..g]);
+        } else {
+            self.store.borrow_mut().extend_from_slice(&buf[..g]);
+        }
         let mut io = self.core.io.borrow_mut();
         io.kn(K::BytesWritten, g as u64);
         io.ev(self.core.id, "write", buf.len() as u64, g as i64, "");
@@ -310,6 +323,16 @@ impl Write for SimSink {
             io.errors_returned.push((self.core.id, self.core.calls, "FLUSH-EIO"));
             io.ev(self.core.id, "flush", 0, -5, "EIO");
             return Err(Error::from_raw_os_error(5));
+        }
+        if self.core.pol.flush_eintr > n {
+            io.k(K::EintrWrite);
+            io.errors_returned.push((self.core.id, self.core.calls, "FLUSH-EINTR"));
+            io.ev(self.core.id, "flush", 0, -4, "EINTR");
+            return Err(Error::from(ErrorKind::Interrupted));
+        }
+        if !self.pending.is_empty() {
+            self.store.borrow_mut().extend_from_slice(&self.pending);
+            self.pending.clear();
         }
         io.ev(self.core.id, "flush", 0, 0, "");
         Ok(())
@@ -336,7 +359,18 @@ impl Read for SimSource {
             io.k(K::ReadCalls);
             io.kn(K::BytesRequestedRead, buf.len() as u64);
         }
-        let len = self.data.len() as u64;
+        let mut len = self.data.len() as u64;
+        if let Some(e) = self.core.pol.eof_at {
+            if e < len {
+                len = e;
+                if self.pos >= len && !buf.is_empty() {
+                    let mut io = self.core.io.borrow_mut();
+                    if !io.errors_returned.iter().any(|x| x.0 == self.core.id && x.2 == "EOF-EARLY") {
+                        io.errors_returned.push((self.core.id, self.core.calls, "EOF-EARLY"));
+                    }
+                }
+            }
+        }
         if buf.is_empty() || self.pos >= len {
             let mut io = self.core.io.borrow_mut();
             if !buf.is_empty() {
